@@ -595,6 +595,9 @@ def gen_sizing(rng, n, tag='z'):
                 delta = rng.choice([0.5, 0.1, 0.01, 1e-4, 1e-9, 0.999, 0.9999999999999999, 0.36787944117144233, 0.1353352832366127, rng.random()])
                 if rng.random() < 0.05:
                     delta = rng.choice([0.0, 1.0]); 
+                if rng.random() < 0.15:
+                    # widths beyond u16/u32-ish ranges (a narrowing cast in the constructor saturates silently)
+                    eps = rng.choice([4.2e-5, 4.1e-5, 1e-5, 3e-6, 1e-6]); delta = rng.choice([0.5, 0.4, 0.2])
                 L.append('cms %d %d' % (f64bits(eps), f64bits(delta)))
             else:
                 nn = rng.choice([1, 1, 2, 3, 4, 10, 100, 1000, 3000, 50000, 0 if rng.random() < 0.1 else 8])
